@@ -115,8 +115,15 @@ def dpq_unit(entry):
                     c.prove(near(gv2[i_], want, c, eps=0, tol=1e-9) if c.mode != "sym" else close(gv2[i_], want, c),
                             "%s on an array refilled in place: entry %d is the value at the new contents" % (rname, i_))
             c.prove(close(xs[0], x2, c) and close(xs[1], x3, c), "%s leaves the array it is given unchanged" % rname)
-    return Unit("C19.%s" % rname, h, bounds={"function": rname, "args": argn}, max_paths=20, tol=1e-9,
-                replay=(lambda vals, label: tail_replay(h, vals, label)) if has_log else None)
+    # boundary points of each family's parameter / argument domain (valid inputs at the edge of the symbolic ranges,
+    # probed concretely against scipy and labelled as such)
+    BP = {"poisson": [{"mu": 0.0, "x": 0}, {"mu": 0.0, "x": 2}], "binom": [{"prob": 0.0, "x": 0, "size": 3}, {"prob": 1.0, "x": 3, "size": 3}],
+          "expon": [{"x": 0.0}], "gamma": [{"x": 0.0, "shape": 1.0}, {"x": 0.0, "shape": 2.5}], "uniform": [{"ux": 0.0}, {"ux": 1.0}],
+          "beta": [{"x": 0.0, "shape1": 1.0}, {"x": 1.0, "shape2": 1.0}], "chi2": [{"x": 0.0, "df": 2.0}], "norm": [{"x": 0.0, "mean": 0.0}]}
+    pts = BP.get(dist, []) if fn != "ppf" else []
+    return Unit("C19.%s" % rname, h, bounds={"function": rname, "args": argn, "boundary_points": pts}, max_paths=20, tol=1e-9,
+                replay=(lambda vals, label: tail_replay(h, vals, label)) if has_log else None,
+                stress={"points": pts} if pts else None)
 
 
 def tail_replay(h, vals, label):
